@@ -49,20 +49,18 @@ def evaluator_poly(prog, cls, scalar, name, coords, extra_sig=None, hook=None, e
 def compare(ctx, rule, key, Q, R, where, what, definite=True):
     """records one obligation: Q == R"""
     try:
-        D = add(Q, R, -1)
-        z = poly.is_zero(D)
+        Dr = poly.witness(add(Q, R, -1))
     except (poly.TooBig, poly.NoRule, ZeroDivisionError) as ex:
         raise AnalysisBroken('%s %s: normal form not computable (%r)' % (rule, key, ex))
-    if z:
+    if not Dr:
         ctx.ob(rule, key, True, where, sample='%s: code == oracle (%d monomials)' % (what, len(Q)))
         return True
-    Dr = poly.reduce_trig(D)
-    try:
-        Dr = poly.reduce_trig(poly.clear_inverses(Dr))
-    except poly.TooBig:
-        pass
+    import hashlib
+    h = hashlib.sha1(repr(poly.canon(Dr)).encode()).hexdigest()[:10]
     msg = '%s differs from the oracle by %s' % (what, poly.fmt(Dr, 3))
-    ctx.ob(rule, key, False if definite else None, where, msg)
+    # the instance key of a failing comparison carries a digest of the canonical difference, so that a known
+    # finding suppresses exactly this discrepancy and any other change of the same term is reported again
+    ctx.ob(rule, '%s#%s' % (key, h), False if definite else None, where, msg)
     return False
 
 
